@@ -504,6 +504,8 @@ ACC: Dict[str, Dict[str, Callable]] = {
         "origin": lambda o, r: o.origin(_vec_arg(r, o, r.choice(["origin", "center"]))),
         "extent": lambda o, r: o.extent(_arr(r, [r.choice([4.0, 6.5]) for _ in range(o.ndim)], "extent") if r.random() < 0.8 else o.extent()),
         "extent:scalar": lambda o, r: o.extent(r.choice([4.0, 6.5])),
+        "grid:spacing": lambda o, r: o.grid(spacing=r.choice([0.5, 1.0, tuple([1.0, 0.5, 2.0][: o.ndim])]), align_corners=r.choice([True, False])),
+        "grid:size": lambda o, r: o.grid(size=tuple(r.choice([4, 5, 6]) for _ in range(o.ndim))),
         "direction": lambda o, r: o.direction(r.choice([lambda: _rotm(r, o.ndim), lambda: r.tensor("direction", _rotm(r, o.ndim)), lambda: o.direction()])()),
         "transform_points": lambda o, r: o.transform_points(r.tensor("pts", gen.rand(r.randrange(10**6), (4, o.ndim), -1, 1)), r.choice([Axes.CUBE, Axes.WORLD]), r.choice([Axes.CUBE, Axes.WORLD, None])),
         "transform_vectors": lambda o, r: o.transform_vectors(r.tensor("vecs", gen.rand(r.randrange(10**6), (4, o.ndim), -1, 1)), r.choice([Axes.CUBE, Axes.WORLD]), r.choice([Axes.CUBE, Axes.WORLD, None])),
